@@ -104,42 +104,6 @@ example : namedCtor "APIMakePutJSONBody" "x".toList = some ⟨.body, "PUT".toLis
 
 /-! ## one evaluation: lazy, exactly one request, the prescribed request, errors not panics -/
 
-/-- what the serializer stage yields: body record and content type (`Err` aborts before anything is sent) -/
-def serialize (d : ApiDef) (env : Env) (body : Option Body) : Except ErrC (Str × Str) :=
-  match d.kind with
-  | .noBody => .ok ("nil".toList, [])
-  | .body => match body with
-    | none => .ok ("nil".toList, d.contentType)
-    | some b => (env.jsonSer b).map (·, d.contentType)
-  | .multipart => match body with
-    | none => .ok ("nil".toList, [])
-    | some b => env.mpSer b
-
-theorem effect_eq_sendWith (api : Api) (d : ApiDef) (env : Env) (ps : List (Str × Val)) (body : Option Body)
-    (tgt : Nat) (w : World) :
-    effect {} api d env ps body tgt w =
-      match serialize d env body with
-      | .error e => (.resp (some e) none, w)
-      | .ok (b, ct) =>
-        match sendWith env api.defaultHeader d.method (urlOf {} api d ps) b ct w with
-        | (.error e, w) => (.resp (some e) none, w)
-        | (.ok raw, w) => decodeResponseBody true env raw tgt w := by
-  unfold effect serialize sendWith
-  cases d.kind with
-  | noBody => simp only [dnr_eq]; rfl
-  | body =>
-    cases body with
-    | none => rfl
-    | some b => simp only []; cases h : env.jsonSer b <;> simp only [Except.map] <;> rfl
-  | multipart =>
-    cases body with
-    | none => rfl
-    | some b =>
-      simp only []
-      cases h : env.mpSer b with
-      | error e => rfl
-      | ok p => cases p; rfl
-
 /-- **laziness.**  Calling the API function only builds a `MonadIO`; the world (transport log, header
     maps) is touched by nothing but an evaluation.  (In the model a `MonadIO` is a function of the world:
     the statement is that the function is the constructor's `effect` and nothing else.) -/
